@@ -14,7 +14,8 @@ RULE = ("requests generated from the positive grammar (9 methods, '/'-targets wi
         "ports, both IP versions, log level warn. Positive: reply must start 'HTTP/1.1 401', carry WWW-Authenticate and a "
         "Content-Length equal to the bytes after the first empty line. Negative: no reply over UDP, a bare ACK over TCP. "
         "Non-trivial = every case; distinct = distinct (class, method, request bytes hash, transport).")
-ASSUME = ["the positive grammar is the conservative core of what the statement lists; inputs between the positive grammar and the listed faults are not judged",
+ASSUME = ["a third of the positive requests is additionally delivered over TCP in 2-5 segments (exhaustive segmentation is C11's subject)",
+          "the positive grammar is the conservative core of what the statement lists; inputs between the positive grammar and the listed faults are not judged",
           "over TCP the request is delivered in one segment here (segmentation is C11's subject)"]
 
 
@@ -40,6 +41,21 @@ def shard(ctx, budget_s):
                 for e in errs:
                     ctx.violation("response:" + e.split(" ")[0], "%s; request %r over %s" % (e, req[:80], tr), observed=(a.rep or b"").hex()[:400],
                                   expected="well-formed 401")
+            # the same request delivered in several segments (cuts inside the method, the target, the headers)
+            if rng.random() < 0.3 and lab.identified(req, "tcp") == sigref.HTTP:
+                k = rng.choice([1, 2, 3, 4])
+                cuts = sorted(set(rng.choice([rng.randrange(1, min(len(req), 8)), rng.randrange(1, len(req))]) for _c in range(k)))
+                reps = lab.ask_segments(req, cuts)
+                if reps is not None:
+                    ctx.stats["positive_tcp_segmented"] += 1
+                    ctx.nontrivial("seg", req, tuple(cuts))
+                    if any(r is not None for r in reps[:-1]) or reps[-1] is None:
+                        ctx.violation("segmented:" + ("early_reply" if reps[-1] is not None else "no_reply"),
+                                      "request %r delivered in segments cut at %s: replies per segment %s" % (req[:60], cuts, [None if r is None else len(r) for r in reps]),
+                                      observed=str([None if r is None else len(r) for r in reps]), expected="one reply, in the completing segment")
+                    else:
+                        for e in http.check_response(reps[-1]):
+                            ctx.violation("response:" + e.split(" ")[0], "%s; segmented request" % e, observed=reps[-1].hex()[:300])
             kinds = list(http.FAULTS)
             rng.shuffle(kinds)
             for kind in kinds[:6]:
